@@ -17,6 +17,7 @@ import copy
 import dataclasses
 import hashlib
 import random
+import math
 import traceback
 from datetime import datetime, timedelta
 from decimal import Decimal
@@ -214,6 +215,10 @@ class Spec:
                 # a reserve that is listed later than the others: its file starts some minutes into the history (the joined
                 # frame has no record of it before; the strategy leaves it alone until it appears)
                 self.aave_late = (rng.choice(self.aave_tokens[1:])[0], rng.choice([2, 5, 9, 17, 33]))
+            if rng.random() < 0.35:
+                # the price feed also quotes a token nobody holds or trades, and only from some minute on (no quote = NaN):
+                # what the strategy is shown for it before that minute must not depend on its later quotes
+                self.price_late = ("LATEQ", rng.choice([3, 8, 15, 29]))
         elif mix == "squeeth":
             self.sq = dict(eth0=rng.uniform(900, 3500), nf0=rng.uniform(0.25, 0.85), premium=rng.uniform(0.97, 1.2), liq_exp=rng.uniform(19, 23))
         elif mix in ("deribit+uni", "uni+deribit", "deribit"):
@@ -286,6 +291,14 @@ class Spec:
                 raw["prices"] = w.prices
             else:
                 raw["prices"] = w.prices[["WBTC", "DAI"]]
+            pl = getattr(self, "price_late", None)
+            if pl is not None:
+                px = rng.uniform(0.5, 50)
+                col = []
+                for i in range(len(raw["prices"].index)):
+                    px *= math.exp(rng.gauss(0, 0.01))
+                    col.append(float("nan") if i < pl[1] else W.D(f"{px:.8g}"))
+                raw["prices"] = raw["prices"].assign(**{pl[0]: pd.Series(col, index=raw["prices"].index, dtype=object)})
             self._aw = getattr(self, "_aw", w)
         if mix == "squeeth":
             s = self.sq
